@@ -381,6 +381,42 @@ macro_rules! set_mod {
                         }
                         Err(_) => "key err".to_string(),
                     },
+                    // bulk self-consistency over many seeds (no oracle needed): generated vs derived vs round-tripped keys,
+                    // byte equality and sign->verify under every provenance; reports the first seed that breaks something.
+                    // keyscan <set> <salt-hex-24-bytes> <start> <count> <do_sign 0|1>
+                    "keyscan" => {
+                        let salt = hex(a[2]);
+                        let (start, count, do_sign) = (a[3].parse::<u64>().unwrap(), a[4].parse::<u64>().unwrap(), a[5] == "1");
+                        let mut bad: Option<String> = None;
+                        for i in start..start + count {
+                            let mut xi = [0u8; 32];
+                            xi[..8].copy_from_slice(&i.to_le_bytes());
+                            xi[8..].copy_from_slice(&salt[..24]);
+                            let (pk, sk) = api::KG::keygen_from_seed(&xi);
+                            let pkb = pk.clone().into_bytes();
+                            let skb = sk.clone().into_bytes();
+                            let fail = |what: &str| Some(format!("{} xi={}", what, tohex(&xi)));
+                            let d = sk.get_public_key().into_bytes();
+                            if d != pkb { bad = fail("derived-differs"); break; }
+                            let pk2 = match api::PublicKey::try_from_bytes(pkb) { Ok(k) => k, Err(_) => { bad = fail("pk-rejected"); break; } };
+                            if pk2.clone().into_bytes() != pkb { bad = fail("pk-roundtrip-differs"); break; }
+                            let sk2 = match api::PrivateKey::try_from_bytes(skb) { Ok(k) => k, Err(_) => { bad = fail("sk-rejected"); break; } };
+                            if sk2.clone().into_bytes() != skb { bad = fail("sk-roundtrip-differs"); break; }
+                            if sk2.get_public_key().into_bytes() != pkb { bad = fail("derived-from-roundtripped-differs"); break; }
+                            if do_sign {
+                                let msg = i.to_le_bytes();
+                                let ctx = [i as u8; 3];
+                                let rnd = [(i >> 3) as u8; 32];
+                                let sig = match api::_internal_sign(&sk, &msg, &ctx, rnd) { Ok(s) => s, Err(_) => { bad = fail("sign-err"); break; } };
+                                let sig2 = match api::_internal_sign(&sk2, &msg, &ctx, rnd) { Ok(s) => s, Err(_) => { bad = fail("sign-err-rt"); break; } };
+                                if sig != sig2 { bad = fail("roundtripped-sk-signs-differently"); break; }
+                                if !api::_internal_verify(&pk, &msg, &sig, &ctx) { bad = fail("honest-rejected-generated-pk"); break; }
+                                if !api::_internal_verify(&pk2, &msg, &sig, &ctx) { bad = fail("honest-rejected-roundtripped-pk"); break; }
+                                if !api::_internal_verify(&sk.get_public_key(), &msg, &sig, &ctx) { bad = fail("honest-rejected-derived-pk"); break; }
+                            }
+                        }
+                        match bad { Some(b) => format!("ok {}", b), None => format!("ok none {}", count) }
+                    }
                     // every single-bit flip of signature (s), public key (p), message (m), context (c): list those that still verify
                     "flipscan" => {
                         let (pkb, msg, sigb, ctx) = (hex(a[2]), hex(a[3]), hex(a[4]), hex(a[5]));
